@@ -49,8 +49,12 @@ impl<'a> Graphemes<'a> {
 #[verifier::external_body] pub fn vx_len(s: &str) -> (r: usize) ensures r == blen(s) { unimplemented!() }
 /// `s[i..].trim().is_empty()`: slicing panics unless `i` is a char boundary
 #[verifier::external_body] pub fn vx_rest_is_blank(s: &str, i: usize) -> bool requires is_boundary(s, i as int), i <= blen(s) { unimplemented!() }
-/// `s[i..].starts_with(' ')`
-#[verifier::external_body] pub fn vx_space_at(s: &str, i: usize) -> (r: bool) requires is_boundary(s, i as int), i <= blen(s) ensures r == space_at(s, i as int) { unimplemented!() }
+/// `s[i..].starts_with(pat)`: only the pattern `' '` is known to the model (an ASCII space); for any other pattern
+/// (another char, a predicate such as `char::is_whitespace`) the result says nothing about the bytes at `i`
+pub trait VxPat { spec fn is_space(&self) -> bool; }
+impl VxPat for char { open spec fn is_space(&self) -> bool { *self == ' ' } }
+impl<F: Fn(char) -> bool> VxPat for F { open spec fn is_space(&self) -> bool { false } }
+#[verifier::external_body] pub fn vx_starts_with<P: VxPat>(s: &str, i: usize, p: P) -> (r: bool) requires is_boundary(s, i as int), i <= blen(s) ensures p.is_space() ==> r == space_at(s, i as int) { unimplemented!() }
 /// `s[..i].to_owned()`: width of a prefix that ends at a cluster end, or one ASCII space after one
 #[verifier::external_body]
 pub fn vx_prefix_owned(s: &str, i: usize) -> (r: String)
@@ -89,7 +93,7 @@ pub trait Cell {
 //@      body_sub g\.len\(\) => vx_len(g)
 //@      body_sub String::new\(\) => vx_empty()
 //@      body_sub self\[([^\]\.]+)\.\.\]\.trim\(\)\.is_empty\(\) => vx_rest_is_blank(self, \1)
-//@      body_sub self\[([^\]\.]+)\.\.\]\.starts_with\(' '\) => vx_space_at(self, \1)
+//@      body_sub self\[([^\]\.]+)\.\.\]\.starts_with\(([^()]*)\) => vx_starts_with(self, \1, \2)
 //@      body_sub self\[\.\.([^\]]+)\]\.to_owned\(\) => vx_prefix_owned(self, \1)
 //@      body_sub format!\("\{\}\{delim\}", &self\[\.\.([^\]]+)\]\) => vx_prefix_delim(self, \1, delim)
 //@      body_sub self\.to_owned\(\) => vx_owned(self)
